@@ -808,7 +808,10 @@ func (fc *FnCtx) rangeInstr(x *ssa.Range) {
 		g.set(fc.cur, key, fmt.Sprintf("((as const (Array %s Bool)) false)", ks))
 		kd, _ := g.mapKeys(u)
 		dom := g.def("rangedom", "(Array "+ks+" Bool)", fmt.Sprintf("(ite (= %s 0) ((as const (Array %s Bool)) false) (select %s %s))", v.t, ks, g.get(fc.cur, kd), v.t))
-		fc.iters[x] = &iterInfo{isMap: true, m: v, visKey: key, mt: u, domAtStart: dom}
+		nkey := fmt.Sprintf("N|%s%s", fc.prefix, x.Name())
+		g.regKey(nkey, "Int", "visited")
+		g.set(fc.cur, nkey, "0")
+		fc.iters[x] = &iterInfo{isMap: true, m: v, visKey: key, mt: u, domAtStart: dom, cntKey: nkey}
 	default:
 		fc.iters[x] = &iterInfo{str: true}
 	}
@@ -843,7 +846,13 @@ func (fc *FnCtx) nextInstr(x *ssa.Next) {
 		fc.assume(rc, "range")
 	}
 	fc.boundRefs(it.mt.Elem(), val)
-	g.set(fc.cur, it.visKey, fmt.Sprintf("(ite %s (store %s %s true) %s)", ok, vis, k, vis))
+	// number of keys visited so far; a Go map holds fewer than 2^56 entries (address space)
+	nOld := g.get(fc.cur, it.cntKey)
+	fc.assume(fmt.Sprintf("(and (<= 0 %s) (< %s 72057594037927936))", nOld, nOld), "map iteration count bounded by the address space")
+	g.set(fc.cur, it.cntKey, fmt.Sprintf("(+ %s 1)", nOld))
+	g.trusted["a map iteration visits fewer than 2^56 keys (maps live in a 64-bit address space)"] = true
+	// (when !ok the loop is left and the visited set is not read again)
+	g.set(fc.cur, it.visKey, fmt.Sprintf("(store %s %s true)", vis, k))
 	fc.vals[x] = Val{ty: tt, tuple: []Val{{t: ok, ty: tt.At(0).Type()}, {t: k, ty: it.mt.Key()}, {t: val, ty: it.mt.Elem()}}}
 }
 
